@@ -47,10 +47,18 @@ def faces(rng, kind, n, uniform=False):
     return np.array(xs, dtype=float)
 
 
-def mesh_case(rng, cname, nmax=3, uniform=False, nmin=1):
+BIG = {1: [(7, 9)], 2: [(5, 7), (4, 6)], 3: [(4, 5), (3, 4), (2, 4)]}
+
+
+def mesh_case(rng, cname, nmax=3, uniform=False, nmin=1, big=False):
+    """big=True: a case with many cells per axis (7-9 in 1D, about 6 x 5 in 2D, about 4 x 4 x 3 in 3D): index arithmetic that is right
+    for the first few cells only (hard-coded extents, off-by-one beyond a size) needs more than the 1-3 cells of the other cases"""
     d = DIM[cname]
     cap = nmax if d < 3 else min(nmax, 3)
     ns = [rng.randint(nmin, cap) for _ in range(d)]
+    if big:
+        ns = [rng.randint(lo, hi) for lo, hi in BIG[d]]
+        rng.shuffle(ns)
     fs = [faces(rng, AXKIND[cname][a], ns[a], uniform=uniform) for a in range(d)]
     return fs
 
